@@ -238,6 +238,7 @@ func (sc *scenario) observe(stamp int64, isTick bool) string {
 
 // link is the path between the harness ("the peer") and the connection under test.
 type link struct {
+	failNext func()          // the next write of the transport fails while the connection stays usable (nil: not supported)
 	inject   func(data []byte)
 	takeSent func() []mem.Sent
 	tick     func(now time.Time)
@@ -246,6 +247,7 @@ type link struct {
 
 func handLink(cc *udpclient.Conn, s *mem.UDPSession) link {
 	return link{
+		failNext: func() { s.FailNext(1) },
 		inject:   func(d []byte) { _ = cc.Process(nil, d) },
 		takeSent: s.TakeSent,
 		tick:     func(now time.Time) { cc.CheckExpirations(now) },
@@ -396,7 +398,16 @@ func runScenario(t *testing.T, line string) string {
 				return sc.calls[id], id
 			}
 			switch f[0] {
-			case "send":
+			case "send", "sendf":
+				// sendf: the transport refuses the first transmission of this request (the call fails at once); nothing of
+				// the exchange may stay behind - no later copy, no NSTART slot
+				if f[0] == "sendf" {
+					if sc.lk.failNext == nil {
+						bad = true
+						break
+					}
+					sc.lk.failNext()
+				}
 				_, id := idArg()
 				ctx, cancel := context.WithCancel(context.Background())
 				if f[2] != "-" {
